@@ -500,6 +500,18 @@ V({
     "trusted": ["chalk-recursive SearchGraph / Stack / Cache (abstract)"],
 })
 
+# -------------------------------------------------------------------------- V19
+V({
+    "id": "V19",
+    "title": "rec_solve_goal, interruption clause: RecursiveContext::solve_goal never makes an answer permanent while the caller's callback says stop",
+    "template": "v18_solve_goal.rs",
+    "assumptions": VERUS_UNITS["V18"]["assumptions"] + [
+        "V19: induction hypothesis: solve_new_subgoal reaches the cache only through nested solve_goal calls, so it satisfies the same clause",
+        "V19: SearchGraph::move_to_cache is the only operation that makes answers permanent (counter `moves`)",
+    ],
+    "trusted": VERUS_UNITS["V18"]["trusted"],
+})
+
 # ===========================================================================
 GLOBAL_ASSUMPTIONS = [
     "soundness of rustc+Kani's model of core/alloc and of CBMC; soundness of Verus and Z3",
